@@ -1230,10 +1230,11 @@ func (up4 *UP4) configureMeters(qers []qer) error {
 		)
 		switch qer.qosLevel {
 		case ApplicationQos:
-			if len(qers) == 1 {
+			if len(qers) == 1 || qer.ulMbr != qer.dlMbr {
 				// if only a single QER is created, the QER is marked as Application QER,
 				// and all PDRs points to the same QER, which is not unique per direction.
 				// Therefore, we have to configure bidirectional meter (two independent cells, one per direction).
+				// The same holds for any QER whose two directions have different rates: one cell holds one rate.
 				p4Meter, err = up4.configureApplicationMeter(qer, true)
 			} else {
 				p4Meter, err = up4.configureApplicationMeter(qer, false)
